@@ -6,7 +6,7 @@ import "fmt"
 func unnamedEntry() Entry {
 	return Entry{Name: "unnamed", Build: func(f *Frag) {
 		f.Solo = true
-		form := f.N("form", 13)
+		form := f.N("form", 16)
 		switch form {
 		case 11, 12: // a definition that carries a number of ANOTHER kind (#N / !N), N off the running count, between unnamed globals and functions
 			filler := "attributes #2 = { nounwind }"
@@ -20,6 +20,23 @@ func unnamedEntry() Entry {
 			f.TopLine("@p = global i32* @2")
 			f.TopLine("@r = global i32* @0")
 			f.TopLine("define void @3() {\n  %%v = load i32, i32* @2\n  store i32 %%v, i32* @0\n  ret void\n}")
+		case 13: // unnamed globals and functions in comdats NAMED like an ID (their own, a neighbour's)
+			f.TopLine("$\"0\" = comdat any")
+			f.TopLine("$\"1\" = comdat any")
+			f.TopLine("$\"2\" = comdat any")
+			f.TopLine("@0 = global i32 7, comdat($\"0\")")
+			f.TopLine("@1 = global i32 8, comdat($\"2\")")
+			f.TopLine("define void @2() comdat($\"2\") {\n  ret void\n}")
+			f.TopLine("define void @3() comdat($\"1\") {\n  ret void\n}")
+			f.TopLine("@u = global [2 x i32*] [i32* @1, i32* @0]")
+		case 14: // unnamed values around unnamed exception-handling pads (catchswitch is a value-producing terminator)
+			f.TopLine("declare i32 @__CxxFrameHandler3(...)")
+			f.TopLine("declare void @g()")
+			f.TopLine("define i32 @f(i32) personality i32 (...)* @__CxxFrameHandler3 {\n  %%2 = add i32 %%0, 1\n  invoke void @g()\n          to label %%3 unwind label %%4\n3:\n  ret i32 %%2\n4:\n  %%5 = catchswitch within none [label %%6] unwind to caller\n6:\n  %%7 = catchpad within %%5 [i8* null, i32 64, i8* null]\n  %%8 = add i32 %%2, 1\n  catchret from %%7 to label %%9\n9:\n  ret i32 %%8\n}")
+		case 15: // unnamed cleanup pad and an unnamed catchswitch that unwinds to it, unnamed values in between
+			f.TopLine("declare i32 @__CxxFrameHandler3(...)")
+			f.TopLine("declare void @g()")
+			f.TopLine("define i32 @f(i32) personality i32 (...)* @__CxxFrameHandler3 {\n  %%2 = add i32 %%0, 1\n  invoke void @g()\n          to label %%3 unwind label %%4\n3:\n  ret i32 %%2\n4:\n  %%5 = catchswitch within none [label %%6] unwind label %%10\n6:\n  %%7 = catchpad within %%5 [i8* null, i32 64, i8* null]\n  %%8 = mul i32 %%2, 3\n  catchret from %%7 to label %%9\n9:\n  ret i32 %%8\n10:\n  %%11 = cleanuppad within none []\n  %%12 = sub i32 %%2, 5\n  cleanupret from %%11 unwind to caller\n}")
 		case 9: // several unnamed functions of ONE type, each referred to in every way a function can be
 			f.TopLine("define void @0() {\n  ret void\n}")
 			f.TopLine("define void @1() {\n  ret void\n}")
